@@ -57,6 +57,8 @@ IDIOMS = {
     'I17': 'for (K, V) in &M {  |  for (K, V) in M.iter() {  |  for V in M.values() {   =>  let es__ = idiom_map_entries(&M); for i__ in 0..es__.len() { let (K, V) = (&es__[i__].0, es__[i__].1);   (HashMap iteration = enumeration of the entries, each once, in an UNSPECIFIED order)',
     'I18': '*M.keys().max().unwrap()  =>  idiom_max_key(&M)   (panics on an empty map: precondition)',
     'I19': 'M.retain(|K, _| { *K >= A && *K <= B });  =>  idiom_retain_key_range(&mut M, A, B);',
+    'I16': 'if C { continue; } REST }  =>  if !(C) { REST } }   (only where nothing but closing braces lies between the end of the enclosing block and the end of the loop body: `continue` == skip REST)',
+    'I21': 'println!(ARGS)  =>  verif_println!(stdout__, ARGS)   (the process-global stdout made an explicit ghost line log)',
     'I24': 'PATH(ARGS).expect(MSG)  =>  idiom_expect(PATH(ARGS), MSG)   (Result::expect: returns only when the result is Ok, panics otherwise)',
     'A1': 'abstract-expression: `expr` => havoc::<T>() (unconstrained value)',
 }
@@ -403,6 +405,49 @@ def _balanced_arg(s, open_idx):
     raise GenError('unbalanced parens in idiom anchor')
 
 
+def _match_brace(s, open_idx):
+    """s[open_idx] == '{'; index of the matching '}' (string / char literals and comments skipped)"""
+    depth, i, n = 0, open_idx, len(s)
+    while i < n:
+        c = s[i]
+        if c == '"':
+            i += 1
+            while i < n and s[i] != '"':
+                i += 2 if s[i] == '\\' else 1
+        elif c == '/' and s[i:i + 2] == '//':
+            while i < n and s[i] != '\n':
+                i += 1
+        elif c == '/' and s[i:i + 2] == '/*':
+            i = s.index('*/', i) + 1
+        elif c == "'" and re.match(r"'(\\.|[^\\'])'", s[i:i + 4]):
+            i += len(re.match(r"'(\\.|[^\\'])'", s[i:i + 4]).group(0)) - 1
+        elif c == '{':
+            depth += 1
+        elif c == '}':
+            depth -= 1
+            if depth == 0:
+                return i
+        i += 1
+    raise GenError('unbalanced braces')
+
+
+def _enclosing_close(s, pos):
+    """index of the '}' that closes the block containing offset pos"""
+    i, n = pos, len(s)
+    while i < n:
+        c = s[i]
+        if c == '"':
+            i += 1
+            while i < n and s[i] != '"':
+                i += 2 if s[i] == '\\' else 1
+        elif c == '{':
+            i = _match_brace(s, i)
+        elif c == '}':
+            return i
+        i += 1
+    raise GenError('no enclosing block')
+
+
 def apply_idiom(ed, text, base, body_rel, loops, rest, item_id, log, rel, src):
     m = re.match(r'(\w+)\s*(.*)$', rest)
     rule, arg = m.group(1), m.group(2)
@@ -525,6 +570,33 @@ def apply_idiom(ed, text, base, body_rel, loops, rest, item_id, log, rel, src):
             pre = re.match(r'^([\w\.]+)\.extend\(', anchor)
             b = a + pre.end()
             new = 'idiom_extend(&mut %s, ' % h.group(1)
+        elif rule == 'I16':
+            # anchor: `if C {` ; the block must be exactly `{ continue; }`
+            if not (flat.startswith('if ') and flat.endswith('{')):
+                raise GenError('I16 anchor must be `if C {`: %s' % flat)
+            close = _match_brace(text, b - 1)
+            if rsx.norm_ws(text[b:close]) != 'continue;':
+                raise GenError('I16: block is not `{ continue; }`: %s' % text[b:close])
+            enc = _enclosing_close(text, close + 1)
+            # innermost loop around the anchor
+            inner = None
+            for (kw_off, kw, brace_off, in_off) in loops:
+                lo = brace_off - base
+                if lo < a and _match_brace(text, lo) > a:
+                    inner = lo
+            if inner is None:
+                raise GenError('I16: no enclosing loop')
+            loop_close = _match_brace(text, inner)
+            if re.sub(r'[\s}]', '', text[enc:loop_close]) != '':
+                raise GenError('I16: statements follow the enclosing block inside the loop body; `continue` is not a plain skip here')
+            cond = flat[3:-1].strip()
+            ed.replace(enc, enc, '} ', 'I16')
+            b = close + 1
+            new = 'if !(%s) {' % cond
+        elif rule == 'I21':
+            if flat != 'println!(':
+                raise GenError('I21 anchor must be `println!(`')
+            new = 'verif_println!(stdout__, '
         elif rule == 'I24':
             if not re.match(r'^\.expect\("[^"]*"\)$', flat):
                 raise GenError('I24 shape mismatch: %s' % flat)
